@@ -722,7 +722,42 @@ fn conn(r: &mut Rng, _i: u64, cycles: bool) -> Vec<String> {
                         }
                     }
                 }
-                18 => l.push(format!("labelall lb{k}")),
+                18 => {
+                    match r.below(3) {
+                        0 => l.push(format!("labelall lb{k}")),
+                        1 => {
+                            // a connect races with the peer dropping its listener: the ListenerFinish is held
+                            // back on the wire while the OpenPort travels
+                            let o = 1 - s;
+                            l.push(format!("release {} 0", sides[o]));
+                            l.push(format!("droplistener {}", sides[o]));
+                            l.push("settle".into());
+                            l.push(format!("connect c{k} {} c{k} wait=1", sides[s]));
+                            handles.push((s, format!("c{k}")));
+                            pending.push(format!("c{k}"));
+                            l.push("settle".into());
+                            l.push(format!("release {} inf", sides[o]));
+                        }
+                        _ => {
+                            // an accept (or request answer) cancelled while it waits for space in a full
+                            // event queue behind a stalled sink; afterwards the sink is reopened
+                            let o = 1 - s;
+                            l.push(format!("connect c{k} {} c{k} wait=1", sides[o]));
+                            handles.push((o, format!("c{k}")));
+                            pending.push(format!("c{k}"));
+                            l.push("settle".into());
+                            l.push(format!("window {} 0", sides[s]));
+                            l.push(format!("labelall lb{k}"));
+                            l.push("settle".into());
+                            l.push(format!("accept a{k} {} a{k}", sides[s]));
+                            handles.push((s, format!("a{k}")));
+                            l.push("settle".into());
+                            l.push(format!("cancel a{k}"));
+                            l.push("settle".into());
+                            l.push(format!("window {} inf", sides[s]));
+                        }
+                    }
+                }
                 _ => {
                     if !cycles && r.chance(1, 3) {
                         match r.below(2) {
